@@ -171,9 +171,85 @@ theorem C09_field_needs_format (cid : Cid) (cells : List Str) (w : Bool) (h : ci
     addFieldRow cid cells w = .error .iface := by
   simp [addFieldRow, buildField, h, bind, Except.bind, Except.map]
 
+theorem Out.bind_ok {α β : Type} (x : Out α) (f : α → Out β) (b : β) (h : x >>= f = .ok b) :
+    ∃ a, x = .ok a ∧ f a = .ok b := by
+  cases x with
+  | error e => simp [bind, Except.bind] at h
+  | ok a => exact ⟨a, rfl, by simpa [bind, Except.bind] using h⟩
+
+/-- the length check of a field row, read off: in fixed format one specific length of at least 1
+(lists such as `3, 5`, ranges and open ends are refused), elsewhere no negative limit -/
+theorem C09_length_decl (fmt : Format) (length : Range) (h : lengthDeclOk fmt length = .ok ()) :
+    (fmt = .fixed → ∃ l, length.lowerLimit = some l ∧ length.upperLimit = some l ∧ 1 ≤ l ∧ length.items.getD [] ≠ []) ∧
+    (fmt ≠ .fixed → (∀ l, length.lowerLimit = some l → 0 ≤ l) ∧
+                     (length.lowerLimit = none → ∀ u, length.upperLimit = some u → 0 ≤ u)) := by
+  unfold lengthDeclOk at h
+  constructor
+  · intro hf
+    subst hf
+    simp only [beq_self_eq_true, if_true] at h
+    split at h
+    · simp at h
+    · rename_i hne
+      split at h
+      · simp at h
+      · rename_i l hl
+        split at h
+        · simp at h
+        · rename_i hu
+          split at h
+          · simp at h
+          · rename_i h1
+            refine ⟨l, hl, by simpa using hu, by omega, ?_⟩
+            intro hnil; simp [hnil] at hne
+  · intro hf
+    have : (fmt == Format.fixed) = false := by cases fmt <;> simp_all
+    simp only [this, Bool.false_eq_true, if_false] at h
+    split at h
+    · rename_i l hl
+      split at h
+      · simp at h
+      · rename_i h0
+        exact ⟨fun l' e => (by rw [hl] at e; cases e; omega), fun e => (by rw [hl] at e; cases e)⟩
+    · rename_i hl
+      split at h
+      · rename_i u hu
+        split at h
+        · simp at h
+        · rename_i h0
+          exact ⟨fun l' e => (by rw [hl] at e; cases e), fun _ u' e => (by rw [hu] at e; cases e; omega)⟩
+      · rename_i hu
+        exact ⟨fun l' e => (by rw [hl] at e; cases e), fun _ u' e => (by rw [hu] at e; cases e)⟩
+
+/-- **Fixed width fields have one specific length.** A field row accepted into a fixed-format CID
+declares a length whose lower and upper limit are the same number, at least 1. -/
+theorem C09_fixed_length_exact (cid : Cid) (cells : List Str) (w : Bool) (f : CidField) (df : DataFormat)
+    (hdf : cid.dataFormat = some df) (hfix : df.format = .fixed) (h : buildField cid cells w = .ok f) :
+    ∃ l, f.field.length.lowerLimit = some l ∧ f.field.length.upperLimit = some l ∧ 1 ≤ l := by
+  unfold buildField at h
+  simp only [hdf] at h
+  unfold buildFieldWith at h
+  obtain ⟨⟨name, stem, rule, ex, field⟩, _, h⟩ := Out.bind_ok _ _ _ h
+  obtain ⟨u, hlen, h⟩ := Out.bind_ok _ _ _ h
+  obtain ⟨_, _, h⟩ := Out.bind_ok _ _ _ h
+  simp only [pure, Except.pure, Except.ok.injEq] at h
+  subst h
+  obtain ⟨l, h1, h2, h3, _⟩ := (C09_length_decl _ _ hlen).1 hfix
+  exact ⟨l, h1, h2, h3⟩
+
 /-- non-vacuity: a decorated three-row CID is read with its field -/
 example :
     (Cid.read [["d".toList, "Format".toList, "Delimited".toList], [[]], [" F ".toList, "name".toList, [], [], [], [], [], "trailing".toList]]).map
       (fun c => c.fields.map (·.name)) = .ok ["name".toList] := by rfl
+
+/-- non-vacuity of `C09_fixed_length_exact` and its converse on examples: `5` is accepted in a fixed
+CID; a list, a range and an open end are refused at that row -/
+example :
+    ((Cid.read [["D".toList, "Format".toList, "Fixed".toList], ["F".toList, "name".toList, [], [], "5".toList]]).toOption.map
+      (fun c => c.fields.map (·.field.length.lowerLimit))) = some [some 5] := by decide +kernel
+example :
+    ["3, 5", "2...4", "...-1, 3...", "0"].map (fun l =>
+      (Cid.read [["D".toList, "Format".toList, "Fixed".toList], ["F".toList, "name".toList, [], [], l.toList]]).toOption.isSome)
+      = [false, false, false, false] := by decide +kernel
 
 end Cutplace.Props
